@@ -82,7 +82,7 @@ class ExBase:
             st.assume(goal)
 
     def feasible(self, st):
-        r = solve.quick_sat(st.pc, self.registry.specfuns, fuel=self.fuel)
+        r = solve.quick_sat(st.pc, self.registry.specfuns, fuel=0)
         if r == "unsat":
             self.pruned += 1
             return False
